@@ -119,7 +119,7 @@ void solver_round(vt::Rng& rng)
             continue;
         }
         solver->parameter("solver::max_evals") = 200;
-        solver->parameter("solver::epsilon")   = 1e-6;
+        solver->parameter("solver::epsilon")   = std::pow(10.0, rng.uniform(-9.0, -4.0));
         const auto ntasks = int64_t{4};
         std::vector<const function_t*> fs;
         std::vector<vector_t>          x0s;
